@@ -206,11 +206,14 @@ type validOpts struct {
 // drawShape draws lattice rings (shell first) and the lattice resolution.
 func drawShape(t *rapid.T, o validOpts) (rings [][]P, q int64, shape string) {
 	q = rapid.SampledFrom([]int64{4, 4, 4, 4, 3, 7, 8}).Draw(t, "q")
-	kinds := []string{"grow", "grow", "star", "comb", "zigzag", "polyomino", "polyomino-holes", "grow-holes", "star-holes", "nested"}
+	kinds := []string{"grow", "grow", "star", "comb", "zigzag", "polyomino", "polyomino-holes", "grow-holes", "star-holes", "annulus", "nested"}
 	if o.collapseBias {
-		kinds = []string{"grow-thin", "comb", "comb", "zigzag", "polyomino", "polyomino-holes", "grow-holes", "comb-hole", "nested"}
+		kinds = []string{"grow-thin", "comb", "comb", "zigzag", "polyomino", "polyomino-holes", "grow-holes", "comb-hole", "annulus", "nested"}
 	}
 	if o.maxHoles < 2 {
+		kinds = kinds[:len(kinds)-1]
+	}
+	if o.maxHoles < 1 {
 		kinds = kinds[:len(kinds)-1]
 	}
 	shape = rapid.SampledFrom(kinds).Draw(t, "shape")
@@ -262,6 +265,8 @@ func drawShape(t *rapid.T, o validOpts) (rings [][]P, q int64, shape string) {
 		rings = [][]P{r}
 	case "nested":
 		rings = gen.Nested(t, q)
+	case "annulus":
+		rings = gen.Annulus(t, q)
 	case "polyomino", "polyomino-holes":
 		cell := rapid.Int64Range(1, q+2).Draw(t, "cell")
 		nx, ny := rapid.IntRange(1, 7).Draw(t, "nx"), rapid.IntRange(1, 7).Draw(t, "ny")
